@@ -85,7 +85,6 @@ def install():
     import s3transfer.compat
     s3transfer.open = _open
     s3transfer.os = _Os
-    s3transfer.compat.rename_file = lambda a, b: _current[0].fs.rename(a, b)
     _installed = True
 
 
